@@ -750,11 +750,176 @@ def run_e2e(ctx):
                           {'part': 'e2e-multi', 'calls': picks})
 
 
+# =================================================================================================
+# end to end, deferred answers: the real DeferredXMLRPCResponse polled until the HTTP response completes
+# =================================================================================================
+class SlowNs(object):
+    """a registered namespace (as an rpcinterface plugin would be) whose methods answer later"""
+    def __init__(self, log):
+        self.log = log
+    def slow(self, k, kind):
+        from supervisor.http import NOT_DONE_YET
+        from supervisor.xmlrpc import RPCError
+        left = [int(k)]
+        def cb():
+            self.log.append('poll')
+            if left[0] > 0:
+                left[0] -= 1
+                return NOT_DONE_YET
+            if kind == 'fault':
+                raise RPCError(70, 'slow')
+            if kind == 'struct':
+                return {'name': 'x', 'n': int(k), 'l': [1, 'é', True]}
+            return 'done after %d' % int(k)
+        cb.delay = 0.05
+        return cb
+
+
+def deferred_request(handler, method, params, between_polls=None, max_polls=60):
+    """marshalled request through the real handler; the deferred producer it pushes is polled with the REAL
+    DeferredXMLRPCResponse.more()/getresponse().  -> dict(status, answer, polls, content_length_ok, pushed_reply)"""
+    from supervisor.compat import xmlrpclib, as_bytes
+    from supervisor.tests.base import DummyRequest
+    from supervisor.http import NOT_DONE_YET
+    from supervisor import xmlrpc
+    req = DummyRequest('/RPC2', None, None, None)
+    req.channel.server = type('S', (), {'logger': type('L', (), {'log': staticmethod(lambda *a: None)})()})()
+    pushed = []
+    req.channel.push_with_producer = pushed.append
+    req.channel.close_when_done = lambda: None
+    handler.continue_request(xmlrpclib.dumps(tuple(params), method), req)
+    res = {'polls': 0, 'deferred': False}
+    if req._error is not None:
+        res['status'] = req._error; return res
+    if pushed and isinstance(pushed[0], xmlrpc.DeferredXMLRPCResponse):
+        d = pushed[0]
+        res['deferred'] = True
+        while True:
+            r = d.more()
+            if req._error is not None:
+                res['status'] = req._error; return res
+            if r is NOT_DONE_YET:
+                res['polls'] += 1
+                if between_polls:
+                    between_polls(res['polls'])
+                if res['polls'] > max_polls:
+                    res['status'] = 'never-completes'; return res
+                continue
+            break
+        res['finished'] = d.finished and d.more() == ''
+        res['pushed_reply'] = len(pushed) == 2        # getresponse() handed the header+body producer to the channel
+    body = req.producers[0] if req.producers else None
+    if body is None:
+        res['status'] = 'no-body'; return res
+    res['status'] = 200
+    res['content_length_ok'] = req.headers.get('Content-Length') == len(body) and req.headers.get('Content-Type') == 'text/xml'
+    try:
+        res['answer'] = ('value', xmlrpclib.loads(body)[0][0])
+    except xmlrpclib.Fault as f:
+        res['answer'] = ('fault', f.faultCode)
+    except Exception as e:
+        res['answer'] = ('unparseable', type(e).__name__)
+    return res
+
+
+def direct_answer(fn, between_polls=None, max_polls=60):
+    """the same call made directly on the interface object, its callback polled by hand"""
+    from supervisor.http import NOT_DONE_YET
+    from supervisor.xmlrpc import RPCError
+    polls = 0
+    try:
+        v = fn()
+        while isinstance(v, types.FunctionType):
+            r = v()
+            if r is NOT_DONE_YET:
+                polls += 1
+                if between_polls:
+                    between_polls(polls)
+                if polls > max_polls:
+                    return ('never-completes',), polls
+                continue
+            v = r
+    except RPCError as e:
+        return ('fault', e.code), polls
+    return ('value', v), polls
+
+
+def run_e2e_deferred(ctx):
+    from supervisor import xmlrpc
+    from supervisor.states import ProcessStates
+    rng = ctx.rng
+    def check(label, res, want, want_polls, inp):
+        ctx.count('deferred:' + label); ctx.count('deferred:polls', res['polls'])
+        ctx.case_done(('e2e-deferred', label, repr(inp)), nontrivial=res['polls'] > 0)
+        if res.get('status') == 500:
+            ctx.violation('http-500:' + label, 'deferred %s produced an HTTP 500' % label, inp)
+        elif res.get('status') != 200:
+            ctx.violation('deferred-response-never-completes', 'deferred %s: status %r after %d polls' % (label, res.get('status'), res['polls']), inp)
+        elif res['answer'] != want or res['polls'] != want_polls:
+            ctx.violation('deferred-response-differs', 'deferred %s completed with %r after %d polls; the direct call gives %r after %d'
+                          % (label, res['answer'], res['polls'], want, want_polls), inp)
+        elif res['deferred'] and not (res.get('finished') and res.get('pushed_reply') and res.get('content_length_ok')):
+            ctx.violation('deferred-response-incomplete', 'deferred %s: finished=%s reply-pushed=%s content-length-ok=%s'
+                          % (label, res.get('finished'), res.get('pushed_reply'), res.get('content_length_ok')), inp)
+    # ---- a plugin namespace answering after k polls
+    for k in range(0, 6):
+        for kind in ('value', 'fault', 'struct'):
+            sup, iface, subs = make_real()
+            log = []
+            subs2 = [('supervisor', iface), ('slow', SlowNs(log))]
+            subs2.append(('system', xmlrpc.SystemNamespaceRPCInterface(subs2)))
+            h = xmlrpc.supervisor_xmlrpc_handler(sup, subs2)
+            res = deferred_request(h, 'slow.slow', [k, kind])
+            want, wp = direct_answer(lambda: SlowNs([]).slow(k, kind))
+            check('slow.slow', res, want, wp, {'part': 'e2e-deferred', 'method': 'slow.slow', 'k': k, 'kind': kind})
+            # the same inside system.multicall, between two immediate calls
+            sup, iface, subs = make_real()
+            subs2 = [('supervisor', iface), ('slow', SlowNs([]))]
+            subs2.append(('system', xmlrpc.SystemNamespaceRPCInterface(subs2)))
+            h = xmlrpc.supervisor_xmlrpc_handler(sup, subs2)
+            calls = [{'methodName': 'supervisor.getAPIVersion', 'params': []}, {'methodName': 'slow.slow', 'params': [k, kind]},
+                     {'methodName': 'supervisor.getIdentification', 'params': []}]
+            res = deferred_request(h, 'system.multicall', [calls])
+            mid = want[1] if want[0] == 'value' else {'faultCode': want[1], 'faultString': 'NOT_RUNNING: slow'}
+            sup2, iface2, _ = make_real()
+            wantm = ('value', [iface2.getAPIVersion(), mid, iface2.getIdentification()])
+            check('multicall[slow.slow]', res, wantm, wp, {'part': 'e2e-deferred', 'method': 'system.multicall', 'k': k, 'kind': kind})
+    # ---- the real interface: stop / start with wait, the process reaching its state after j polls
+    for j in range(0, 5):
+        for method, start_state, mid_state, end_state in (('stopProcess', ProcessStates.RUNNING, ProcessStates.STOPPING, ProcessStates.STOPPED),
+                                                          ('startProcess', ProcessStates.STOPPED, ProcessStates.STARTING, ProcessStates.RUNNING),
+                                                          ('startProcess', ProcessStates.STOPPED, ProcessStates.STARTING, ProcessStates.BACKOFF),
+                                                          ('stopAllProcesses', ProcessStates.RUNNING, ProcessStates.STOPPING, ProcessStates.STOPPED),
+                                                          ('startProcessGroup', ProcessStates.STOPPED, ProcessStates.STARTING, ProcessStates.RUNNING)):
+            def scenario():
+                sup, iface, subs = make_real()
+                p = sup.process_groups['grp'].processes['proc']
+                p.state = start_state
+                p.stop = lambda: setattr(p, 'state', mid_state)
+                p.spawn = lambda: setattr(p, 'state', mid_state)
+                def between(n):
+                    if n >= j:
+                        p.state = end_state
+                if j == 0:
+                    p.stop = lambda: setattr(p, 'state', end_state)
+                    p.spawn = lambda: setattr(p, 'state', end_state)
+                return sup, iface, subs, between
+            params = {'stopProcess': ['grp:proc', True], 'startProcess': ['grp:proc', True], 'stopAllProcesses': [True], 'startProcessGroup': ['grp', True]}[method]
+            sup, iface, subs, between = scenario()
+            h = xmlrpc.supervisor_xmlrpc_handler(sup, subs)
+            res = deferred_request(h, 'supervisor.' + method, params, between)
+            sup2, iface2, subs2, between2 = scenario()
+            want, wp = direct_answer(lambda: getattr(iface2, method)(*params), between2)
+            check('supervisor.' + method, res, want, wp,
+                  {'part': 'e2e-deferred', 'method': 'supervisor.' + method, 'j': j, 'end_state': end_state})
+
+
 def run(ctx):
     run_rec(ctx)
     run_real(ctx)
     run_gate(ctx)
     run_e2e(ctx)
+    run_e2e_deferred(ctx)
 
 
 # ---- MANIFEST metadata -----------------------------------------------------------------------
@@ -762,7 +927,7 @@ TECHNIQUE = ("Lean 4 theorems over a model of traverse() on an arbitrary attribu
              "(AST of rpcinterface.py, xmlrpc.py, docs/api.rst) and a step-function model of system.multicall; differential "
              "correspondence against the real traverse/multicall/interfaces and the real XML-RPC handler")
 LEVEL_TEXT = ("traverse_closed / refused_executes_nothing / arity_fault for every attribute table and every name; gating for every "
-              "documented process-control and configuration method (one exception, finding F27) by decide over the whole generated "
+              "documented process-control and configuration method (one exception, finding F39) by decide over the whole generated "
               "table; every raised fault name is a constant of Faults; multicall = the calls one after another for every call list, "
               "every deferred-callback behaviour and every tick schedule")
 LEVEL_NOTE = ("'never 500 / never hangs' is partial: proved for name resolution, arity, gating and the log methods; the method bodies and the "
